@@ -16,6 +16,7 @@ import (
 	"flag"
 	"fmt"
 	"hash/fnv"
+	"io"
 	"math"
 	"math/rand"
 	"net"
@@ -55,6 +56,7 @@ type act struct {
 	Upd  bool   `json:"upd"`
 	D    int    `json:"d"`
 	Ks   []int  `json:"ks"`
+	N    int    `json:"-"` // > 1: the call is repeated N times back to back (one run-length-encoded event)
 	Inj  string `json:"-"` // "fault": the store fails the call's first command; "ctx": the caller's context has ended
 	// init line of a plan
 	Now  int `json:"now"`
@@ -99,7 +101,10 @@ func clampI(x int) int {
 	return x
 }
 
-// values: 0 is the empty value (nil or zero-length), every 9th value is large
+// values: 0 is the empty value (nil or zero-length); 1000001..1000255 are the one-byte values;
+// every 9th value is padded to a length around a power of two (or large)
+var padTo = []int{63, 64, 65, 4095, 4096, 4097, 8192, 65535, 65536, 65537, 70000}
+
 func encVal(v int) []byte {
 	if v == 0 {
 		return nil
@@ -107,9 +112,14 @@ func encVal(v int) []byte {
 	if v < 0 {
 		return []byte{}
 	}
+	if v > 1000000 && v <= 1000255 {
+		return []byte{byte(v - 1000000)}
+	}
 	b := []byte("v" + strconv.Itoa(v) + "|")
 	if v%9 == 0 {
-		b = append(b, bytes.Repeat([]byte{'x'}, 70000)...)
+		if n := padTo[(v/9)%len(padTo)]; n > len(b) {
+			b = append(b, bytes.Repeat([]byte{'x'}, n-len(b))...)
+		}
 	}
 	return b
 }
@@ -118,19 +128,54 @@ func decVal(b []byte) int {
 	if len(b) == 0 {
 		return 0
 	}
+	if len(b) == 1 {
+		return 1000000 + int(b[0])
+	}
 	s := string(b)
 	bar := strings.IndexByte(s, '|')
 	if !strings.HasPrefix(s, "v") || bar < 0 || strings.Trim(s[bar+1:], "x") != "" {
 		return -1
 	}
 	n, err := strconv.Atoi(s[1:bar])
-	if err != nil || n <= 0 {
+	if err != nil || n <= 0 || n > 1000000 {
 		return -1
 	}
-	if (n%9 == 0) != (len(s) > bar+1) {
+	want := bar + 1
+	if n%9 == 0 && padTo[(n/9)%len(padTo)] > want {
+		want = padTo[(n/9)%len(padTo)]
+	}
+	if len(s) != want {
 		return -1
 	}
 	return n
+}
+
+// scribble: what a caller may do with a slice that is its own
+// scribbleAgain: slices the caller owns are written to again while the object stays in use
+func (s *sut) scribbleAgain() {
+	if s.own == 0 || s.lazy || s.norec {
+		return
+	}
+	for _, b := range s.owned {
+		scribble(b)
+	}
+}
+
+func (s *sut) owns(b []byte) {
+	if len(b) == 0 {
+		return
+	}
+	if len(s.owned) >= 24 {
+		s.owned = s.owned[1:]
+	}
+	s.owned = append(s.owned, b)
+}
+
+func scribble(b []byte) {
+	for i := range b {
+		b[i] = '#'
+	}
+	_ = append(b[:0], "gone"...)
 }
 
 // error classes the package distinguishes (sentinels are grpc status errors): not-found,
@@ -197,6 +242,15 @@ type sut struct {
 	keep cache.SetOptFn
 	dead bool // a call never came back: the instance is abandoned
 	mu   sync.Mutex
+	// the caller owns what it was given: a rendered result is scribbled over as soon as the store
+	// cannot still be holding it - at once when every read returns a fresh slice (own = 2), for the
+	// in-memory cache (which hands out the stored slice itself) after a one-shot read and, for the
+	// rest and for the inputs of Set, once Clear has returned (own = 1).  Sequential runs only.
+	own   int
+	lent  [][]byte
+	owned [][]byte
+	bad   bool
+	norec bool // long runs: inputs are looked at once, not kept
 }
 
 func newSut(c cache.TTLCache, scheme int, lazy bool) *sut {
@@ -212,15 +266,43 @@ func (s *sut) context() context.Context {
 }
 
 // hit renders a returned value now, or remembers the very slice for render()
-func (s *sut) hit(v []byte) tr.E {
+func (s *sut) hit(v []byte, oneShot bool) tr.E {
 	if !s.lazy {
-		return rp("hit", decVal(v))
+		r := rp("hit", decVal(v))
+		switch {
+		case s.own == 2 || s.own == 1 && oneShot:
+			s.release(v)
+			scribble(v)
+			s.owns(v)
+		case s.own == 1:
+			s.lent = append(s.lent, v)
+		}
+		return r
 	}
 	m := rp("hit", -2)
 	s.mu.Lock()
 	s.held = append(s.held, held{m, v})
 	s.mu.Unlock()
 	return m
+}
+
+// release forgets the Set input that v aliases (the in-memory cache hands the stored slice back),
+// after a last look at it, so that scribbling over v is not mistaken for the cache writing to it
+func (s *sut) release(v []byte) {
+	if len(v) == 0 {
+		return
+	}
+	s.mu.Lock()
+	defer s.mu.Unlock()
+	for i, in := range s.ins {
+		if len(in.buf) > 0 && &in.buf[0] == &v[0] {
+			if !bytes.Equal(in.buf, in.cp) {
+				s.bad = true
+			}
+			s.ins = append(s.ins[:i], s.ins[i+1:]...)
+			return
+		}
+	}
 }
 
 // render fills in the retained results and reports whether every input slice is unchanged
@@ -236,7 +318,7 @@ func (s *sut) render() (inmut bool) {
 			return false
 		}
 	}
-	return true
+	return !s.bad
 }
 
 func (s *sut) get(ctx context.Context, a act) (r tr.E) {
@@ -259,7 +341,7 @@ func (s *sut) get(ctx context.Context, a act) (r tr.E) {
 	if err != nil {
 		return errReply(err)
 	}
-	return s.hit(v)
+	return s.hit(v, a.Rm)
 }
 
 // do performs one call; the second result is the `inmut` observation of a Set (the slice the
@@ -271,6 +353,7 @@ func (s *sut) do(a act) (r interface{}, inmut bool) {
 			r = onPanic(p)
 		}
 	}()
+	s.scribbleAgain()
 	ctx := s.context()
 	if a.Inj == "ctx" {
 		if a.K%2 == 0 {
@@ -317,7 +400,12 @@ func (s *sut) do(a act) (r interface{}, inmut bool) {
 		cp := append([]byte{}, val...)
 		err := s.c.Set(ctx, s.key(a.K), val, fns...)
 		inmut = bytes.Equal(val, cp)
-		if s.scr == nil {
+		switch {
+		case s.scr != nil || s.norec:
+		case s.own == 2 && !s.lazy:
+			scribble(val) // the store has copied it
+			s.owns(val)
+		default:
 			s.mu.Lock()
 			s.ins = append(s.ins, input{val, cp})
 			s.mu.Unlock()
@@ -335,7 +423,23 @@ func (s *sut) do(a act) (r interface{}, inmut bool) {
 		return rp("ok", 0), true
 	case "clear":
 		s.c.Clear(ctx)
-		return rp("ok", 0), true
+		if s.own == 1 && !s.lazy && a.Inj == "" {
+			// nothing handed in or out before this point can still be referenced by the cache
+			for _, in := range s.ins {
+				if !bytes.Equal(in.buf, in.cp) {
+					inmut = false
+				}
+				scribble(in.buf)
+				s.owns(in.buf)
+			}
+			s.ins = nil
+			for _, b := range s.lent {
+				scribble(b)
+				s.owns(b)
+			}
+			s.lent = nil
+		}
+		return rp("ok", 0), inmut
 	case "probe":
 		rs := make([]tr.E, 0, len(a.Ks))
 		for _, k := range a.Ks {
@@ -345,6 +449,45 @@ func (s *sut) do(a act) (r interface{}, inmut bool) {
 	}
 	tr.Fatal("unknown op %q", a.Op)
 	return nil, true
+}
+
+// run repeats one call n times back to back and returns the run-length-encoded replies.  Results
+// are rendered at once and nothing is retained: a run is about counters, not about aliasing.
+func (s *sut) run(a act, n int) (segs []tr.E, inmut bool, stuck bool) {
+	lazy, own := s.lazy, s.own
+	s.lazy, s.own, s.norec = false, 0, true
+	defer func() { s.lazy, s.own, s.norec = lazy, own, false }()
+	type res struct {
+		segs []tr.E
+		im   bool
+	}
+	ch := make(chan res, 1)
+	go func() {
+		var out []tr.E
+		im, last := true, ""
+		for i := 0; i < n; i++ {
+			r, m := s.do(a)
+			im = im && m
+			bs, _ := json.Marshal(r)
+			if len(out) > 0 && string(bs) == last {
+				out[len(out)-1]["n"] = out[len(out)-1]["n"].(int) + 1
+				continue
+			}
+			last = string(bs)
+			out = append(out, tr.E{"r": r, "n": 1})
+		}
+		ch <- res{out, im}
+	}()
+	t := time.NewTimer(watchdogPeriod() + time.Duration(n)*100*time.Microsecond)
+	defer t.Stop()
+	select {
+	case x := <-ch:
+		return x.segs, x.im, false
+	case <-t.C:
+		s.dead = true
+		noteStuck()
+		return []tr.E{{"r": rp("stuck", 0), "n": n}}, true, true
+	}
 }
 
 // call is do under a watchdog: a call that never comes back is an observation ("stuck"), the
@@ -389,14 +532,48 @@ type fentry struct {
 
 type fakeRedis struct {
 	redis.Cmdable
-	mu   sync.Mutex
-	data map[string]fentry
-	cmds []string
-	sch  *sched // when set, every command of an identified caller waits for the driver's grant
-	fail bool   // the next command is answered with an error and not executed
+	mu           sync.Mutex
+	data         map[string]fentry
+	cmds         []string
+	sch          *sched // when set, every command of an identified caller waits for the driver's grant
+	fail         bool   // the next command is answered with an error and not executed
+	nfail, nmiss int
+	quiet        bool // long runs: commands are not logged
 }
 
 var errInjected = errors.New("fake redis: injected server error (LOADING)")
+
+type netTimeout struct{}
+
+func (netTimeout) Error() string   { return "read tcp 10.0.0.1:6379: i/o timeout" }
+func (netTimeout) Timeout() bool   { return true }
+func (netTimeout) Temporary() bool { return true }
+
+// every error either side knows can come back from the store: plain and wrapped
+var faultKinds = []error{
+	errInjected,
+	errors.New("READONLY You can't write against a read only replica."),
+	errors.New("MOVED 3999 127.0.0.1:6381"),
+	redis.ErrClosed,
+	redis.TxFailedErr,
+	io.EOF,
+	io.ErrUnexpectedEOF,
+	context.DeadlineExceeded,
+	context.Canceled,
+	netTimeout{},
+	&net.OpError{Op: "dial", Net: "tcp", Err: errors.New("connection refused")},
+	fmt.Errorf("pool: %w", redis.ErrClosed),
+	fmt.Errorf("retry 3: %w", io.EOF),
+}
+
+// missing answers "no such key" the way the client does - sometimes through a wrapper
+func (f *fakeRedis) missing() error {
+	f.nmiss++
+	if f.nmiss%3 == 0 {
+		return fmt.Errorf("traced: %w", redis.Nil)
+	}
+	return redis.Nil
+}
 
 // refuse is asked first by every command (under mu): a client does not send a command whose
 // context has ended, and an injected server error leaves the command unexecuted.
@@ -408,8 +585,10 @@ func (f *fakeRedis) refuse(ctx context.Context, what string) error {
 	}
 	if f.fail {
 		f.fail = false
-		f.logf("%s -> injected error", what)
-		return errInjected
+		f.nfail++
+		err := faultKinds[f.nfail%len(faultKinds)]
+		f.logf("%s -> injected error: %v", what, err)
+		return err
 	}
 	return nil
 }
@@ -505,6 +684,9 @@ func (h unknownHook) ProcessPipelineHook(redis.ProcessPipelineHook) redis.Proces
 func (f *fakeRedis) nowMs() int64 { return nowSec() * 1000 }
 
 func (f *fakeRedis) logf(format string, a ...interface{}) {
+	if f.quiet {
+		return
+	}
 	f.cmds = append(f.cmds, fmt.Sprintf(format, a...))
 }
 
@@ -630,9 +812,9 @@ func (f *fakeRedis) Get(ctx context.Context, key string) *redis.StringCmd {
 	f.logf("get %s", short(key))
 	e, ok := f.live(key)
 	if !ok {
-		return redis.NewStringResult("", redis.Nil)
+		return redis.NewStringResult("", f.missing())
 	}
-	return redis.NewStringResult(e.val, nil)
+	return redis.NewStringResult(strings.Clone(e.val), nil)
 }
 
 func (f *fakeRedis) GetDel(ctx context.Context, key string) *redis.StringCmd {
@@ -645,10 +827,10 @@ func (f *fakeRedis) GetDel(ctx context.Context, key string) *redis.StringCmd {
 	f.logf("getdel %s", short(key))
 	e, ok := f.live(key)
 	if !ok {
-		return redis.NewStringResult("", redis.Nil)
+		return redis.NewStringResult("", f.missing())
 	}
 	delete(f.data, key)
-	return redis.NewStringResult(e.val, nil)
+	return redis.NewStringResult(strings.Clone(e.val), nil)
 }
 
 func (f *fakeRedis) Del(ctx context.Context, keys ...string) *redis.IntCmd {
@@ -789,7 +971,7 @@ func (f *fakeRedis) SetArgs(ctx context.Context, key string, value interface{}, 
 	}
 	switch {
 	case a.Get && had:
-		return redis.NewStatusResult(old.val, nil)
+		return redis.NewStatusResult(strings.Clone(old.val), nil)
 	case a.Get || blocked:
 		return redis.NewStatusResult("", redis.Nil)
 	}
@@ -807,9 +989,9 @@ func (f *fakeRedis) GetSet(ctx context.Context, key string, value interface{}) *
 	old, had := f.live(key)
 	f.data[key] = fentry{val: str(value)}
 	if !had {
-		return redis.NewStringResult("", redis.Nil)
+		return redis.NewStringResult("", f.missing())
 	}
-	return redis.NewStringResult(old.val, nil)
+	return redis.NewStringResult(strings.Clone(old.val), nil)
 }
 
 func (f *fakeRedis) rename(ctx context.Context, what, key, newkey string, nx bool) (bool, error) {
@@ -907,7 +1089,7 @@ func (f *fakeRedis) GetEx(ctx context.Context, key string, d time.Duration) *red
 	e, ok := f.live(key)
 	if !ok {
 		f.logf("getex %s", short(key))
-		return redis.NewStringResult("", redis.Nil)
+		return redis.NewStringResult("", f.missing())
 	}
 	switch {
 	case d > 0:
@@ -921,7 +1103,7 @@ func (f *fakeRedis) GetEx(ctx context.Context, key string, d time.Duration) *red
 		f.logf("getex %s", short(key))
 	}
 	f.data[key] = e
-	return redis.NewStringResult(e.val, nil)
+	return redis.NewStringResult(strings.Clone(e.val), nil)
 }
 
 func (f *fakeRedis) SetEx(ctx context.Context, key string, value interface{}, d time.Duration) *redis.StatusCmd {
@@ -1248,6 +1430,7 @@ func runMem(w *tr.W, src string, size, dttl, nk, now, idx int, acts []act) {
 	lazy := idx%2 == 1
 	out := &sink{w: w, lazy: lazy}
 	s := newSut(cache.NewTTLMemCache(size, int64(dttl)), idx, lazy)
+	s.own = 1
 	var dc *decoy
 	if idx%3 != 0 {
 		dc = &decoy{s: newSut(cache.NewTTLMemCache(3, 2), idx, false), rng: rand.New(rand.NewSource(int64(idx)*7919 + int64(now))), nk: nk}
@@ -1261,6 +1444,14 @@ func runMem(w *tr.W, src string, size, dttl, nk, now, idx int, acts []act) {
 			continue
 		}
 		dc.poke()
+		if a.N > 1 {
+			segs, im, _ := s.run(a, a.N)
+			out.emit(tr.E{"ev": "run", "a": a.rec(), "n": a.N, "segs": segs, "inmut": im})
+			if s.dead {
+				break
+			}
+			continue
+		}
 		r, im := s.call(a)
 		e := tr.E{"ev": "call", "a": a.rec(), "r": r}
 		if a.Op == "set" {
@@ -1311,6 +1502,7 @@ func runBoth(w *tr.W, src string, size, dttl, nk, now, idx int, acts []act) {
 	pfx := prefixes[idx%len(prefixes)]
 	m := newSut(cache.NewTTLMemCache(size, int64(dttl)), idx, lazy)
 	r := newSut(cache.NewTTLRdsCache(fr, "ttl:"+pfx, int64(dttl)), idx+1, lazy)
+	m.own, r.own = 1, 2
 	foreign := seedServer(fr, nk)
 	var dc *decoy
 	if idx%3 != 0 {
@@ -1371,6 +1563,7 @@ func runRds(w *tr.W, src string, dttl, nk, now, idx int, acts []act) {
 	}
 	s := newSut(cache.NewTTLRdsCache(fr, pfx, int64(dttl)), idx, lazy)
 	s.scr = make([]byte, 0, 16)
+	s.own = 2
 	w.Emit(tr.E{"ev": "reset", "size": nk + 5, "dttl": clampI(dttl), "nk": nk, "now": now, "threads": 1,
 		"impl": "rds", "src": src, "cfg": cfgRaw(nk+5, dttl), "lazy": lazy})
 	for _, a := range acts {
@@ -1381,6 +1574,16 @@ func runRds(w *tr.W, src string, dttl, nk, now, idx int, acts []act) {
 		}
 		dc.poke()
 		fr.take()
+		if a.N > 1 {
+			fr.quiet = true
+			segs, im, _ := s.run(a, a.N)
+			fr.quiet = false
+			out.emit(tr.E{"ev": "run", "a": a.rec(), "n": a.N, "segs": segs, "inmut": im})
+			if s.dead {
+				break
+			}
+			continue
+		}
 		fr.fail = a.Inj == "fault"
 		r, im := s.call(a)
 		fr.fail = false
@@ -1450,10 +1653,16 @@ type gen struct {
 }
 
 // extremes of the integer range (no clock comes within 10^9 of the deadlines they give)
+// around the widths a counter or a field may have been narrowed to
+var widths = []int{255, 256, 257, 65535, 65536, 65537}
+var runLens = widths
 var hugeTTL = []int{1 << 31, 1<<32 + 5, 1 << 40, 1 << 62}
 var hugeNeg = []int{-1 << 31, -1 << 40, math.MinInt64}
 
 func (g *gen) ttlChoice() int {
+	if g.rng.Intn(30) == 0 {
+		return widths[g.rng.Intn(len(widths))]
+	}
 	if g.rng.Intn(25) == 0 {
 		if g.rng.Intn(2) == 0 {
 			return hugeNeg[g.rng.Intn(len(hugeNeg))]
@@ -1504,6 +1713,8 @@ func (g *gen) memAct() act {
 		a := act{Op: "set", K: k, V: g.nv, Nx: g.rng.Intn(3) == 0, Keep: g.rng.Intn(3) == 0}
 		if g.rng.Intn(12) == 0 {
 			a.V = 0 // the empty value
+		} else if g.rng.Intn(15) == 0 {
+			a.V = 1000001 + g.rng.Intn(255) // a one-byte value
 		}
 		if g.rng.Intn(2) == 0 {
 			a.Ht, a.TTL = true, g.ttlChoice()
@@ -1548,7 +1759,10 @@ func randMem(w *tr.W, rng *rand.Rand, i, maxops int) {
 		nk = size + 1 + rng.Intn(2) // just above the bound
 	}
 	if i%12 == 5 {
-		size = []int{math.MaxInt32 + 1, 1 << 40, math.MaxInt}[rng.Intn(3)]
+		size = []int{math.MaxInt32 + 1, 1 << 32, 1<<32 + 1, 1 << 40, math.MaxInt}[rng.Intn(5)]
+	}
+	if i%12 == 9 {
+		size = widths[rng.Intn(len(widths))]
 	}
 	dttl := []int{-3, 0, 0, 1, 2, 3, 5, 8}[rng.Intn(8)]
 	if i%10 == 7 {
@@ -1558,11 +1772,90 @@ func randMem(w *tr.W, rng *rand.Rand, i, maxops int) {
 	g := &gen{rng: rng, nk: nk, dttl: dttl, now: now}
 	n := 5 + rng.Intn(maxops)
 	acts := make([]act, 0, n+1)
+	if i%5 == 3 {
+		acts = g.shape(size)
+	}
+	runAt := -1
+	if i%9 == 4 {
+		runAt = rng.Intn(n)
+	}
 	for j := 0; j < n; j++ {
-		acts = append(acts, g.memAct())
+		a := g.memAct()
+		if j == runAt && a.Op != "tick" && a.Op != "probe" {
+			a.N = runLens[rng.Intn(len(runLens))] // the same call that many times
+		}
+		acts = append(acts, a)
+		if a.N == 0 && a.Op != "tick" && a.Op != "probe" && rng.Intn(15) == 0 {
+			acts = append(acts, a) // the very same call twice
+		}
 	}
 	acts = append(acts, act{Op: "probe", Ks: allKeys(nk)})
 	runMem(w, "rand", size, dttl, nk, now, i, acts)
+}
+
+// shape drives a fresh cache into one shape class and then takes the structural operations
+// (clear, iteration by probe, insertion that may evict, set-if-absent, one-shot read) in it.
+func (g *gen) shape(size int) []act {
+	var acts []act
+	rng := g.rng
+	m := size
+	if m > g.nk {
+		m = g.nk
+	}
+	fill := func(n, ttl int) {
+		for k := 1; k <= n && k <= g.nk; k++ {
+			g.nv++
+			acts = append(acts, act{Op: "set", K: k, V: g.nv, Ht: true, TTL: ttl})
+			g.note(ttl)
+		}
+	}
+	switch rng.Intn(8) {
+	case 0: // never used
+	case 1: // exactly full
+		fill(m, 20+rng.Intn(5))
+	case 2: // one more than fits
+		fill(m+1, 20+rng.Intn(5))
+	case 3: // emptied by removals
+		fill(m, 20)
+		for k := 1; k <= m; k++ {
+			acts = append(acts, act{Op: "rem", K: k})
+		}
+	case 4: // emptied by clear
+		fill(m+1, 20)
+		acts = append(acts, act{Op: "clear"})
+	case 5: // one element
+		fill(1, 20)
+	case 6: // full of entries that have expired in place
+		fill(m+1, 2)
+		g.now += 3
+		acts = append(acts, act{Op: "tick", D: 3})
+	case 7: // emptied by one-shot reads
+		fill(m, 20)
+		for k := 1; k <= m; k++ {
+			acts = append(acts, act{Op: "get", K: k, Rm: true})
+		}
+	}
+	for n := 2 + rng.Intn(3); n > 0; n-- {
+		k := rng.Intn(g.nk) + 1
+		switch rng.Intn(6) {
+		case 0, 1:
+			acts = append(acts, act{Op: "clear"})
+		case 2:
+			acts = append(acts, act{Op: "probe", Ks: allKeys(g.nk)})
+		case 3:
+			g.nv++
+			acts = append(acts, act{Op: "set", K: g.nk, V: g.nv})
+			g.note(g.dttl)
+		case 4:
+			g.nv++
+			acts = append(acts, act{Op: "set", K: k, V: g.nv, Nx: true})
+			g.note(g.dttl)
+		default:
+			acts = append(acts, act{Op: "get", K: k, Rm: true})
+		}
+	}
+	acts = append(acts, act{Op: "probe", Ks: allKeys(g.nk)})
+	return acts
 }
 
 // region histories: the generator keeps the (deterministic) liveness of every key so that
@@ -1575,6 +1868,16 @@ func randBoth(w *tr.W, rng *rand.Rand, i, maxops int) {
 // randRds: the same region histories on the redis-backed cache alone, with failures injected
 func randRds(w *tr.W, rng *rand.Rand, i, maxops int) {
 	_, dttl, nk, start, acts := genRegion(rng, i, maxops, true)
+	if i%7 == 2 {
+		// one call of the history is repeated 255..65537 times back to back
+		for tries := 0; tries < 20; tries++ {
+			a := &acts[rng.Intn(len(acts))]
+			if a.Op != "tick" && a.Op != "probe" && a.Inj == "" {
+				a.N = runLens[rng.Intn(len(runLens))]
+				break
+			}
+		}
+	}
 	runRds(w, "randf", dttl, nk, start, i, acts)
 }
 
@@ -1585,7 +1888,7 @@ func genRegion(rng *rand.Rand, i, maxops int, inject bool) (int, int, int, int, 
 	nk := 2 + rng.Intn(9)
 	size := nk + rng.Intn(3)
 	if i%9 == 4 {
-		size = []int{math.MaxInt32 + 1, 1 << 40, math.MaxInt}[rng.Intn(3)]
+		size = []int{math.MaxInt32 + 1, 1 << 40, math.MaxInt, 255, 256, 65536}[rng.Intn(6)]
 	}
 	dttl := []int{0, -2, 1, 2, 3, 5, 8}[rng.Intn(7)]
 	if i%11 == 6 {
@@ -1606,6 +1909,9 @@ func genRegion(rng *rand.Rand, i, maxops int, inject bool) (int, int, int, int, 
 		if rng.Intn(30) == 0 {
 			return bigRegionTTL[rng.Intn(len(bigRegionTTL))]
 		}
+		if rng.Intn(30) == 0 {
+			return widths[rng.Intn(len(widths))]
+		}
 		if rng.Intn(2) == 0 {
 			return 1 + rng.Intn(3)
 		}
@@ -1617,6 +1923,9 @@ func genRegion(rng *rand.Rand, i, maxops int, inject bool) (int, int, int, int, 
 	if i%3 == 2 {
 		// a key space that needs several SCAN pages: fill, Clear, then ask for every key
 		nk = 12 + rng.Intn(29)
+		if rng.Intn(2) == 0 {
+			nk = []int{9, 10, 11, 19, 20, 21, 29, 30, 31}[rng.Intn(9)] // around multiples of SCAN's page
+		}
 		size = nk + rng.Intn(3)
 		for _, k := range rng.Perm(nk) {
 			if rng.Intn(8) == 0 {
@@ -1704,6 +2013,8 @@ func genRegion(rng *rand.Rand, i, maxops int, inject bool) (int, int, int, int, 
 			}
 			if rng.Intn(12) == 0 {
 				a.V = 0 // the empty value
+			} else if rng.Intn(15) == 0 {
+				a.V = 1000001 + rng.Intn(255) // a one-byte value
 			}
 			a.Inj = inj()
 			if a.Inj == "" && !(a.Nx && live(k)) {
@@ -1737,7 +2048,7 @@ func genRegion(rng *rand.Rand, i, maxops int, inject bool) (int, int, int, int, 
 			// candidates: around a pending deadline, or a small step; never onto a live deadline
 			var cands []int
 			for _, d := range dl {
-				if d > now && d-now < 1000 {
+				if d > now && d-now < 100000 {
 					cands = append(cands, d-1-now, d+1-now)
 				}
 			}
